@@ -2,8 +2,9 @@
     Models: Num/Acq.v (clip, minimize post-processing, np.tile + _add_noise, Uniform, RandMaxVar's
     density), Sched/Bo.v (BayesianOptimization under the batch scheduler, acquisition queue, index
     arithmetic, synchronous rule), Gen/C11_Lcbsc.v (LCBSC.evaluate / evaluate_gradient, regenerated
-    from the source text on every run).  This file only states the property theorems; proofs are in
-    Proofs/C11_Acq.v, C11_Bo.v, C11_Lcbsc.v, C11_Case.v. *)
+    from the source text on every run), Sched/BoCase.v (histories of queries on one acquisition
+    object).  This file only states the property theorems; proofs are in
+    Proofs/C11_Acq.v, C11_Box.v, C11_Bo.v, C11_Lcbsc.v, C11_Case.v. *)
 From Coq Require Import Reals.
 From Coquelicot Require Import Coquelicot.
 From Coq Require Import List ZArith QArith Qminmax Qabs Arith Bool Permutation.
@@ -353,11 +354,11 @@ Proof. vm_compute. auto. Qed.
 Example C11_example_history :
   let sq := [(4 # 1, 2 # 1); (1 # 1, 1 # 1); (16 # 1, 4 # 1); (1 # 4, 1 # 2)]%Q in
   let s1 := {| h_beta := 2 # 1; h_mean := 1 # 1; h_var := 2 # 1; h_gmean := [1 # 1]; h_gvar := [2 # 1]; h_sqrt := sq;
-               h_val := Some ((-1) # 1); h_grad := Some [0 # 1]; h_fval := (-1) # 1; h_fgrad := [0 # 1]; h_fd := [0 # 1] |}%Q in
+               h_val := Some ((-1) # 1); h_grad := Some [0 # 1]; h_fval := (-1) # 1; h_fgrad := [0 # 1]; h_fd := [0 # 1]; h_fd2 := [0 # 1] |}%Q in
   let s2 := {| h_beta := 2 # 1; h_mean := 0 # 1; h_var := 8 # 1; h_gmean := [1 # 1]; h_gvar := [2 # 1]; h_sqrt := sq;
-               h_val := Some ((-4) # 1); h_grad := Some [1 # 2]; h_fval := (-4) # 1; h_fgrad := [1 # 2]; h_fd := [1 # 2] |}%Q in
+               h_val := Some ((-4) # 1); h_grad := Some [1 # 2]; h_fval := (-4) # 1; h_fgrad := [1 # 2]; h_fd := [1 # 2]; h_fd2 := [1 # 2] |}%Q in
   let stale := {| h_beta := 2 # 1; h_mean := 0 # 1; h_var := 8 # 1; h_gmean := [1 # 1]; h_gvar := [2 # 1]; h_sqrt := sq;
-               h_val := Some ((-1) # 1); h_grad := Some [0 # 1]; h_fval := (-4) # 1; h_fgrad := [1 # 2]; h_fd := [1 # 2] |}%Q in
+               h_val := Some ((-1) # 1); h_grad := Some [0 # 1]; h_fval := (-4) # 1; h_fgrad := [1 # 2]; h_fd := [1 # 2]; h_fd2 := [1 # 2] |}%Q in
   let h := fun steps => {| hs_names := []; hs_dict := []; hs_mbounds := []; hs_steps := steps; hs_acq := [] |} in
   hist_agree (h [s1; s2]) = true /\ hist_ok (h [s1; s2]) = true
   /\ hist_agree (h [s1; stale]) = false /\ hist_ok (h [s1; stale]) = false.
